@@ -322,6 +322,67 @@ def classify(mm, start_cols, rng, K):
     return None
 
 
+def symptom(what):
+    """Symptom class of a mismatch message: the message up to the first colon without numbers and names."""
+    import re
+
+    w = what.split(":")[0]
+    w = re.sub(r"\(.*?\)", "", w)
+    if w.lstrip("[]a-z ").startswith("$") and " variable" in w:
+        w = w[: w.index(" variable") + len(" variable")]  # drop the variable's name
+    w = re.sub(r"\d+", "", w)
+    return re.sub(r"\s+", " ", w).strip().replace(" ", "_")
+
+
+def start_class(sname):
+    return sname  # corpus model name or gen:<ADVAN>:<TRANS>
+
+
+def reduce_history(A, start_model, hist, seeds, jseed, K, wd, want, c):
+    """Greedy one-at-a-time reduction (to a fixpoint) of the failing history prefix.  A candidate fails when, after
+    its last step, the code-vs-model / write / re-read comparison raises a mismatch of the same symptom class that the
+    mechanism classifier cannot attribute either.  Steps keep their own option generators."""
+    from vp import denote
+
+    steps = list(zip(hist, seeds))
+
+    def fails(cand):
+        model = start_model
+        n_applied = 0
+        for name, sd in cand:
+            try:
+                new = A[name][1](model, random.Random(sd))
+            except Exception:
+                continue
+            if new is None:
+                continue
+            model = new
+            n_applied += 1
+        if not n_applied:
+            return False
+        c.hit("reduction_evaluations")
+        try:
+            judge_step(model, Case(), random.Random(jseed), K, wd, 99, do_write=True)
+        except denote.Mismatch as mm:
+            return symptom(mm.what) == want
+        except Exception:
+            return False
+        return False
+
+    if not fails(steps):
+        return None  # not reproducible with the write stage forced: leave unclassified
+    changed = True
+    while changed and len(steps) > 1:
+        changed = False
+        for i in range(len(steps)):
+            cand = steps[:i] + steps[i + 1:]
+            if cand and fails(cand):
+                steps = cand
+                changed = True
+                break
+    return [n for n, _ in steps]
+
+
 def _code_of(td):
     return "\n".join(c for n, c in td.rm.records if n in ("PK", "ERROR", "PRED", "DES"))
 
@@ -357,13 +418,18 @@ def run_case(rng, idx, tier):
             sname = f"gen:{gm['meta'].get('advan')}:{gm['meta'].get('trans')}"
         start_cols = set(model.dataset.columns) if model.dataset is not None else set()
         hist = histories.random_history(rng, rng.randint(2, maxlen))
+        # every step draws its options from its own generator, so that a history with steps removed replays the
+        # remaining steps identically (needed by the history reduction of unclassified mismatches)
+        seeds = [rng.getrandbits(32) for _ in hist]
+        jseeds = [rng.getrandbits(32) for _ in hist]
+        wflags = [rng.random() < 0.35 for _ in hist]
+        start_model = model
         applied = []
         judged = 0
         c.sample = {"start": sname, "history": hist, "applied": applied}
-        # judge the start model itself once (it is also a product of pharmpy's generator for corpus models)
         for step_no, name in enumerate(hist):
             try:
-                new = A[name][1](model, rng)
+                new = A[name][1](model, random.Random(seeds[step_no]))
             except Exception as e:
                 kind = histories.classify_exception(e)
                 c.hit(f"step_{kind}")
@@ -375,13 +441,23 @@ def run_case(rng, idx, tier):
             model = new
             applied.append(name)
             try:
-                res = judge_step(model, c, random.Random(rng.random()), K, wd, step_no,
-                                 do_write=(step_no == len(hist) - 1 or rng.random() < 0.35))
+                res = judge_step(model, c, random.Random(jseeds[step_no]), K, wd, step_no,
+                                 do_write=(step_no == len(hist) - 1 or wflags[step_no]))
             except denote.Mismatch as mm:
                 key = classify(mm, start_cols, random.Random(7), K)
+                detail = {"start": sname, "applied": list(applied), "code": model.code.splitlines(), "detail": mm.detail}
+                if key is None:
+                    # attribute by history: the shortest sub-history that still shows the same symptom
+                    try:
+                        minimal = reduce_history(A, start_model, hist[: step_no + 1], seeds, jseeds[step_no], K, wd, symptom(mm.what), c)
+                    except Exception as e:  # noqa
+                        minimal = None
+                        c.hit("reduction_error:" + type(e).__name__)
+                    if minimal is not None:
+                        key = f"C02/h:{start_class(sname)}:{'>'.join(minimal)}:{symptom(mm.what)}"
+                        detail["minimal_history"] = minimal
                 c.hit("classified" if key else "unclassified")
-                c.violate(key, f"after {applied}: {mm.what}", {"start": sname, "applied": list(applied),
-                                                             "code": model.code.splitlines(), "detail": mm.detail})
+                c.violate(key, f"after {applied}: {mm.what}", detail)
                 break
             except Exception as e:
                 # the judge itself met something it cannot handle: harness limitation, counted
